@@ -84,6 +84,28 @@ func c09Inputs() (a, b [][]byte) {
 			}}
 		a = append(a, lib.NewPlanGen(rng, o).Fill().Bytes())
 	}
+	// ... and, third of the inputs hammered most, an activity file whose 240 activity messages
+	// carry local timestamps in four zones in turn (+1 h, +5:30, -8 h, +2 h): every message asks
+	// for another zone than the one before it, in every goroutine, all the time
+	{
+		const R = 0x3B9ACA00
+		put := func(v uint64) []byte {
+			b := make([]byte, 4)
+			ref.Put(b, v, 4, 0)
+			return b
+		}
+		p := &ref.Plan{HeaderSize: 14, Proto: 0x20, ProfVer: 2115}
+		p.Records = append(p.Records,
+			ref.Record{IsDef: true, Local: 0, Global: 0, Fields: []ref.FieldDef{{Num: 0, Size: 1, Base: 0}}},
+			ref.Record{Local: 0, Data: [][]byte{{4}}},
+			ref.Record{IsDef: true, Local: 1, Global: 34, Fields: []ref.FieldDef{{Num: 253, Size: 4, Base: 0x86}, {Num: 5, Size: 4, Base: 0x86}}})
+		for i := 0; i < 240; i++ {
+			off := []int64{3600, 19800, -28800, 7200}[i%4]
+			t := uint64(R + 10*i)
+			p.Records = append(p.Records, ref.Record{Local: 1, Data: [][]byte{put(t), put(uint64(int64(t) + off))}})
+		}
+		a = append(a, p.Bytes())
+	}
 	for k := uint64(0); k < 10; k++ {
 		rng := lib.NewRand("C09.poolA", k)
 		ft := []byte{2, 1, 5, 32, 9}[k%5]
